@@ -83,6 +83,7 @@ struct MuxPolicy {
   int policy = 0;   // 0 libogg default; 1 flush every k packets; 2 one packet per page; 3 fill pages to the 255-segment limit; 4 at most k segments per page (forces continued packets); 5 body byte limit k
   int k = 4;
   long serial = 1000;
+  int foreign_bos_first = 0;   // the foreign stream's beginning-of-stream page comes before ours (Ogg: the BOS pages of a group may come in any order)
   int foreign_mode = 1;   // 1: the foreign stream ends before our last page; 2: its remaining pages (and its end-of-stream page) come after ours; 3: like 2, plus a second one-page foreign stream among the beginning-of-stream pages
 };
 struct PhysStream {
